@@ -98,7 +98,8 @@ def order(ctx):
                 if ok_ or (cons_, cls_) in seen_:
                     continue
                 seen_.add((cons_, cls_))
-                ctx.ob(['C09', 'C19'] if ('resolve' in f.id or 'resolve' in cons_ or cls_ == 'SCHEDULE') else ['C09'], 'R-ORDER', '%s|%s|%s' % (cons_, cls_, cont), False,
+                ctx.ob((['C09', 'C19'] + (['C11'] if ('TypeRegistry::resolve' in f.id or 'TypeRegistry::resolve' in cons_) else [])) if ('resolve' in f.id or 'resolve' in cons_ or cls_ == 'SCHEDULE') else ['C09'],
+                       'R-ORDER', '%s|%s|%s' % (cons_, cls_, cont), False,
                        '%s [source: %s in %s]' % (why_, what, short(f.id)), where, show(ce)[:140])
             if not seen_:
                 ctx.ob(['C09', 'C19'] if 'resolve' in f.id else ['C09'], 'R-ORDER', key, ok, why, where, show(ce)[:140])
@@ -714,7 +715,7 @@ def binding(ctx):
                         return True, len(cs_)
                     ok, ncs = passed_scope(holder, pi)
                     how = 'parameter %d of %s; its %d callers all pass Module::scope() (possibly through their own parameter)' % (pi, short(holder.id), ncs)
-            ctx.ob(['C11', 'C19', 'C10'], 'R-EXPR', 'C11-D1|scope-of|%s' % cid(g.id), ok, 'the scope handed to the resolver is the referring module\'s own scope(): %s' % how, loc(c['span']))
+            ctx.ob(['C11', 'C19', 'C10'] + (['C08'] if 'enum_definition' in g.id else []), 'R-EXPR', 'C11-D1|scope-of|%s' % cid(g.id), ok, 'the scope handed to the resolver is the referring module\'s own scope(): %s' % how, loc(c['span']))
     # the module whose scope is used is the module that owns the item: get_module_for_path(resolvee_path)
     gm = [f for f in P.fns.values() if f.id.endswith('SemanticState::get_module_for_path')]
     okm = False
@@ -977,7 +978,7 @@ def binding(ctx):
                 ok2 = bool(root_first and plain and mods and ck and okr2 and every2 and not S2['skips'])
             det += ' ;; stage1 %s stage2 %s' % (ok1, ok2)
         ok = ok1 and ok2
-    ctx.ob(['C11', 'C19', 'C10'], 'R-EXPR', 'C11-D3|candidate-order', ok,
+    ctx.ob(['C11', 'C19', 'C10', 'C09'], 'R-EXPR', 'C11-D3|candidate-order', ok,
            'candidates are tried as: imported types whose last segment is the name, last import first; else root::name (built-ins); else <module>::name for the scope modules in scope order; first hit wins: %s' % det, loc(rs.span))
     sc = [f for f in P.fns.values() if f.id.endswith('module::Module::scope')]
     oks = False
